@@ -15,6 +15,7 @@ pub open spec fn rt_ok(f: &NarseseFormat<&str>, l: Lay) -> bool {
 /// (`NarseseFormat::parse` = build_parse_state + the Narsese `from_parse`): the result is a Term
 /// value with the same layout as the original - same constructors, ordered components, unordered
 /// component sets, placeholder position at every depth
+#[verifier::rlimit(300)]
 pub fn vx_roundtrip_term(f: &NarseseFormat<&str>, term: &Term) -> (r: Result<Narsese, ParseError>)
     requires
         format_wf(f),
@@ -56,6 +57,7 @@ pub open spec fn rt_sent_ok(f: &NarseseFormat<&str>, l: Lay, k: int) -> bool {
 /// and quest as the NARS grammar writes them, and truth-less judgements / goals): format, then parse
 /// with the parser's entry sequence: the result is a Sentence whose term has the same layout, with
 /// the same punctuation, eternal, without truth
+#[verifier::rlimit(300)]
 pub fn vx_roundtrip_sentence(f: &NarseseFormat<&str>, s: &Sentence) -> (r: Result<Narsese, ParseError>)
     requires
         format_wf(f),
@@ -108,6 +110,7 @@ pub open spec fn rt_sent3_ok(f: &NarseseFormat<&str>, l: Lay, k: int, j: int) ->
         && tense_at(f, e, (p2 + f.space.format_terms@.len()) as int, j)
 }
 /// C01 for sentences with a TENSE stamp (past / present / future) and without truth
+#[verifier::rlimit(300)]
 pub fn vx_roundtrip_sentence_tense(f: &NarseseFormat<&str>, s: &Sentence) -> (r: Result<Narsese, ParseError>)
     requires
         format_wf(f),
@@ -119,6 +122,7 @@ pub fn vx_roundtrip_sentence_tense(f: &NarseseFormat<&str>, s: &Sentence) -> (r:
             && sentence_punctuation(s2) == sentence_punctuation(*s)
             && sentence_stamp(s2) == sentence_stamp(*s) && sentence_truth_empty(s2),
 {
+    hide(lay_ok); hide(lay_of); hide(lay_text);
     let text = f.format_sentence(s);
     let ghost k = punct_index(sentence_punctuation(*s));
     let ghost j = tense_index(sentence_stamp(*s));
